@@ -79,7 +79,7 @@ func (c *Cmd) StdoutPipe() (io.ReadCloser, error) {
 	if c.Process != nil {
 		return nil, errors.New("exec: StdoutPipe after process started")
 	}
-	c.stdoutPipe = &Pipe{name: "stdout", w: W}
+	c.stdoutPipe = &Pipe{name: "stdout", w: W, writers: 1} // the parent's own write end, closed after Start
 	c.Stdout = nopWriteCloser{}
 	return pipeReader{c.stdoutPipe}, nil
 }
@@ -91,7 +91,7 @@ func (c *Cmd) StderrPipe() (io.ReadCloser, error) {
 	if c.Process != nil {
 		return nil, errors.New("exec: StderrPipe after process started")
 	}
-	c.stderrPipe = &Pipe{name: "stderr", w: W}
+	c.stderrPipe = &Pipe{name: "stderr", w: W, writers: 1}
 	c.Stderr = nopWriteCloser{}
 	return pipeReader{c.stderrPipe}, nil
 }
@@ -164,6 +164,12 @@ func (c *Cmd) start(kind string) error {
 	}
 	simlog.Add(simlog.Event{Kind: "os.exec", Subj: token, Pid: pid, N: pgid, A: strings.Join(c.Args, " "), B: c.Dir, Data: append([]string(nil), c.Env...)})
 	p := w.spawn(token, sc, SelfPid, SelfPgid, newGroup, c.stdoutPipe, c.stderrPipe)
+	// the child holds the write ends now; the parent closes its copies
+	for _, pp := range []*Pipe{c.stdoutPipe, c.stderrPipe} {
+		if pp != nil {
+			pp.closeWriter()
+		}
+	}
 	c.proc = p
 	c.Process = &Process{Pid: p.Pid, proc: p}
 	return nil
